@@ -549,12 +549,13 @@ theorem run_inv (cfg : Cfg) (buf : Bytes) (hb : buf.size < 2^50) : ∀ (L : List
     Inv cfg.copyStrings buf m g → m.tape.size + 3 * L.length + 3 < 2^56 → m.strings.size ≤ buf.size →
     (∀ a ∈ L, m.strings.size ≤ a.1) → L.Pairwise (fun a b => a.1 + a.2 ≤ b.1) →
     runMG cfg buf m g L = some (m', g') →
-    Inv cfg.copyStrings buf m' g' ∧ m'.tape.size ≤ m.tape.size + 3 * L.length ∧ (L ≠ [] → m'.st ≠ .rootStart)
+    Inv cfg.copyStrings buf m' g' ∧ m'.tape.size ≤ m.tape.size + 3 * L.length ∧ (L ≠ [] → m'.st ≠ .rootStart) ∧
+    m'.strings.size ≤ buf.size
   | [], m, g, m', g', hi, hT, hS, hlo, hpw, hrun => by
     simp only [runMG] at hrun
     injection hrun with hrun; injection hrun with e1 e2
     subst e1; subst e2
-    exact ⟨hi, by omega, fun h => absurd rfl h⟩
+    exact ⟨hi, by omega, fun h => absurd rfl h, hS⟩
   | (idx, peek) :: r, m, g, m', g', hi, hT, hS, hlo, hpw, hrun => by
     simp only [runMG] at hrun
     cases hstep : m.step cfg buf idx peek with
@@ -577,8 +578,8 @@ theorem run_inv (cfg : Cfg) (buf : Bytes) (hb : buf.size < 2^50) : ∀ (L : List
           have := hpw.1 a ha
           simp only at this
           omega
-      obtain ⟨r1, r2, r3⟩ := run_inv cfg buf hb r m1 _ m' g' i1 (by omega) hS1.1 hS1.2 hpw.2 hrun
-      refine ⟨r1, by simp only [List.length_cons]; omega, fun _ => ?_⟩
+      obtain ⟨r1, r2, r3, r4⟩ := run_inv cfg buf hb r m1 _ m' g' i1 (by omega) hS1.1 hS1.2 hpw.2 hrun
+      refine ⟨r1, by simp only [List.length_cons]; omega, fun _ => ?_, r4⟩
       by_cases hr : r = []
       · subst hr
         simp only [runMG] at hrun
@@ -604,7 +605,7 @@ theorem stage2_wf (cfg : Cfg) (buf : Bytes) (L : List (Nat × Nat)) (m' m : M) (
     WalkLayout.OkRoots (pjOf m buf) g.roots 0 ∧ (∀ v ∈ g.roots, WalkLayout.Tight v) ∧
     (cfg.copyStrings = true → ∀ v ∈ g.roots, CopyIndep.Copied (pjOf m buf) v) := by
   have hT0 : M.init.tape.size = 1 := rfl
-  obtain ⟨⟨hc, hs⟩, hsz, hst⟩ := run_inv cfg buf hb L M.init {} m' g (inv_init _ _) (by rw [hT0]; omega)
+  obtain ⟨⟨hc, hs⟩, hsz, hst, _⟩ := run_inv cfg buf hb L M.init {} m' g (inv_init _ _) (by rw [hT0]; omega)
     (Nat.zero_le _) (fun a _ => Nat.zero_le _) hpk hrun
   have hst := hst hne
   rw [hT0] at hsz
@@ -667,5 +668,42 @@ theorem stage2_wf_peekOK (cfg : Cfg) (buf : Bytes) (idx : List Nat) (L : List (N
     WalkLayout.OkRoots (pjOf m buf) g.roots 0 ∧ (∀ v ∈ g.roots, WalkLayout.Tight v) ∧
     (cfg.copyStrings = true → ∀ v ∈ g.roots, CopyIndep.Copied (pjOf m buf) v) :=
   stage2_wf cfg buf L m' m g hb hL hne (pairwise_of_peekOK hpk hs) hrun hfin
+
+/-! ## 21. Size bounds of the finished machine -/
+
+theorem finish_sizes {m' m : M} (h : m'.finish = some m) :
+    m.tape.size = m'.tape.size + 1 ∧ m.strings = m'.strings := by
+  unfold M.finish at h
+  split at h
+  · simp only [] at h
+    split at h
+    · cases h
+    · rename_i m2 ha
+      injection h with h
+      subst h
+      obtain ⟨a1, a2, a3, a4, a5, a6, a7⟩ := annotate_spec ha
+      exact ⟨by simp only [M.writeTape, Array.size_push, a5], a4⟩
+  · cases h
+
+/-- the tape and the string buffer of the finished machine are bounded by the number of indices and the message -/
+theorem stage2_sizes (cfg : Cfg) (buf : Bytes) (L : List (Nat × Nat)) (m' m : M) (g : Ghost)
+    (hb : buf.size < 2^50) (hL : L.length < 2^50) (hne : L ≠ [])
+    (hpk : L.Pairwise (fun a b => a.1 + a.2 ≤ b.1))
+    (hrun : runMG cfg buf M.init {} L = some (m', g)) (hfin : m'.finish = some m) :
+    m.tape.size ≤ 3 * L.length + 2 ∧ m.strings.size ≤ buf.size := by
+  have hT0 : M.init.tape.size = 1 := rfl
+  obtain ⟨_, hsz, _, hstr⟩ := run_inv cfg buf hb L M.init {} m' g (inv_init _ _) (by rw [hT0]; omega)
+    (Nat.zero_le _) (fun a _ => Nat.zero_le _) hpk hrun
+  rw [hT0] at hsz
+  obtain ⟨f1, f2⟩ := finish_sizes hfin
+  rw [f1, f2]
+  exact ⟨by omega, hstr⟩
+
+theorem stage2_sizes_peekOK (cfg : Cfg) (buf : Bytes) (idx : List Nat) (L : List (Nat × Nat)) (m' m : M) (g : Ghost)
+    (hb : buf.size < 2^50) (hL : L.length < 2^50) (hne : L ≠ [])
+    (hpk : PeekOK buf idx L) (hs : idx.Pairwise (· < ·))
+    (hrun : runMG cfg buf M.init {} L = some (m', g)) (hfin : m'.finish = some m) :
+    m.tape.size ≤ 3 * L.length + 2 ∧ m.strings.size ≤ buf.size :=
+  stage2_sizes cfg buf L m' m g hb hL hne (pairwise_of_peekOK hpk hs) hrun hfin
 
 end SJ.Stage2WF
